@@ -17,7 +17,7 @@ EXPLANATION = (
     'property/interface gives an error reply; GetAll returns exactly the readable properties of that interface; one '
     'PropertiesChanged signal per assignment iff the property is declared to emit.')
 BOUNDS = {'quick': '12 declarations (pairwise over 4 signatures x 3 access modes x 3 emit modes); histories of 3 steps over 18 step kinds; values from pools of 3 (boundaries, empty, multi-byte)',
-          'thorough': '36 declarations; histories of 4 steps'}
+          'thorough': '36 declarations with histories of 3 steps; 12 declarations with histories of 4 steps'}
 ASSUMPTIONS = ['values come from pools of 3 per signature (selector variables): the solver contributes exhaustive coverage of the bounded history space, not arithmetic',
                'Get with an empty interface name may answer from any interface that has the property (the statement does not fix the choice)',
                'emit mode "invalidates" may emit nothing (the statement only fixes true / false)']
@@ -44,14 +44,15 @@ def _decls(tier):
 
 def obligations(tier):
     obs = []
-    k = 3 if tier == 'quick' else 4
-    for (si, ai, ei) in _decls(tier):
-        firsts = [None] if k <= 3 else list(range(NSTEPS))
-        for first in firsts:
-            obs.append(Ob('hist:%s:%s:%s:k%d:first%s' % (SIGS[si], 'r' * ACCESS[ai][0] + 'w' * ACCESS[ai][1], EMITS[ei], k, first),
-                          'hist', {'si': si, 'ai': ai, 'ei': ei, 'k': k, 'first': first}, timeout=900, path_timeout=60,
-                          twin=((first is None and len(obs) % 4 == 0) or first == 0), functions=FUNCS,
-                          bounds='%d steps (symbolic selectors over %d step kinds), values: symbolic selector over a pool of 3 per type' % (k, NSTEPS)))
+    plans = [('quick', 3)] if tier == 'quick' else [('thorough', 3), ('quick', 4)]
+    for (dtier, k) in plans:
+        for (si, ai, ei) in _decls(dtier):
+            firsts = [None] if k <= 2 else list(range(NSTEPS))
+            for first in firsts:
+                obs.append(Ob('hist:%s:%s:%s:k%d:first%s' % (SIGS[si], 'r' * ACCESS[ai][0] + 'w' * ACCESS[ai][1], EMITS[ei], k, first),
+                              'hist', {'si': si, 'ai': ai, 'ei': ei, 'k': k, 'first': first}, timeout=1800, path_timeout=60,
+                              twin=(first is None or (first == 0 and len(obs) % 3 == 0)), functions=FUNCS,
+                              bounds='%d steps (symbolic selector over %d step kinds), values from pools of 3' % (k, NSTEPS)))
     return obs
 
 
